@@ -2,7 +2,7 @@
    combinations model and the independent-set model; truth-table / product
    decisions evaluated on the energies the implementation reported. *)
 From Coq Require Import List ZArith QArith Qcanon Bool Arith.
-From Dimod Require Import Base.Util Model.Poly Model.Comb Gen.Gen_Gates Gen.Gen_Combinations Model.Gates Model.Knap Model.MultCircuit Model.Qap Model.Magic Model.Sat.
+From Dimod Require Import Base.Util Model.Poly Model.Comb Gen.Gen_Gates Gen.Gen_Combinations Gen.Gen_Graph Model.Gates Model.Knap Model.MultCircuit Model.Qap Model.Magic Model.Sat.
 Import ListNotations.
 Open Scope Qc_scope.
 
@@ -27,8 +27,10 @@ Inductive case :=
 | CMultWire (na nb : nat) (names : list wire) (bqm : obs)
 (* binobs: the coefficients of the BINARY model (labels = positions), strength = sn / sd *)
 | CComb (n : nat) (k : Z) (s : Qc) (sn : Z) (sd : positive) (binobs : option obs) (rows : list (list bool * Qc))
-| CMwis (s : option Qc) (mult : Qc) (edges : list (label * label)) (nodes : list (label * Qc))
+(* strength / strength_multiplier: None = not passed, the default TRANSLATED from the source applies *)
+| CMwis (s : option Qc) (mult : option Qc) (edges : list (label * label)) (nodes : list (label * Qc))
         (n : nat) (bqm : obs)
+| CMis (s : option Qc) (edges : list (label * label)) (nodes : list label) (n : nat) (bqm : obs)
 | CIs (edges : list (label * label)) (n : nat) (bqm : obs)
 (* CQM generators: the generator's data, the objective and constraints the CQM reports (lhs, sense, rhs),
    and per assignment (bits by variable number): check_feasible, objective energy *)
@@ -124,9 +126,14 @@ Definition check (c : case) : bool :=
       && forallb (fun r => Qc_eqb (snd r) (s * z2q (combinations_energy k (fst r)))) rows
   | CMwis s mult edges nodes n bqm =>
       let ws := effective_weights edges nodes in
-      let s_eff := match s with Some s => s | None => max_weight ws * mult end in
+      let m := match mult with Some m => m | None => mwis_default_multiplier end in
+      let s_eff := match s with Some s => s | None => max_weight ws * m end in
       poly_coeff_eqb n (mwis_poly s_eff edges ws) (obs_poly bqm)
-  | CIs edges n bqm => poly_coeff_eqb n (mwis_poly 1 edges []) (obs_poly bqm)
+  | CMis s edges nodes n bqm =>
+      let ws := effective_weights edges (map (fun v => (v, mis_node_weight)) nodes) in
+      let s_eff := match s with Some s => s | None => mis_default_strength end in
+      poly_coeff_eqb n (mwis_poly s_eff edges ws) (obs_poly bqm)
+  | CIs edges n bqm => poly_coeff_eqb n (mwis_poly is_edge_bias edges []) (obs_poly bqm)
   | CKnap values weights capacity obj cs rows =>
       let n := length values in
       (length weights =? n)%nat
